@@ -3,9 +3,11 @@ import Refine.Lemmas.CodecC20
 /-!
   C20 — malformed input is rejected cleanly: obligations on the reader models.
 
-  `decodeMeshb`, `decodeSolb`, `decodeMetricSolb` are the *faithful* models of the readers in /repo
-  (tied by the `c20_*_mut` streams: C status and grid dump = model status and dump on every mutant).
-  `decodeMeshbFixed` … are the same readers with three maintainer-style checks added (`Cfg.fixed`):
+  `decodeMeshb`, `decodeSolb`, `decodeMetricSolb` are the *faithful* models of the readers as they were in
+  /repo before the `fix:` commits 084384d, 92cf05c, ee7a30e.
+  `decodeMeshbFixed` … are the same readers with the three checks those commits added (`Cfg.fixed`), and are
+  what /repo runs now (`Cfg.current = Cfg.fixed`; tied by the `c20_*_mut` streams: C status and grid dump =
+  model status and dump on every mutant):
     * header scan: a hop is accepted only if `next_position > position` or `next_position = 0`;
     * cell / geometry records: `0 ≤ vertex index < nnode`, else `REF_INVALID`;
     * .solb: `0 ≤ count < 2^31` and `count · ldim · 8` bytes left in the file, else `REF_FAILURE`.
